@@ -218,3 +218,16 @@ M("lt-compares-amounts", ["C12"], "ordering compares raw amounts", ("    def __l
 M("eq-tolerance-wide", ["C12"], "equality with a one percent tolerance", ("        if s is not None:\n            o = other.in_pixels()\n            if o is not None:\n                if abs(s - o) <= ERROR:", "        if s is not None:\n            o = other.in_pixels()\n            if o is not None:\n                if abs(s - o) <= 0.01 * abs(s):"))
 M("to-cm-uses-mm-constant", ["C12"], "to_cm divides by the mm constant", ("        v = value / (ppi * 0.393701)\n        return Length(\"%scm\" % (Length.str(v)))", "        v = value / (ppi * 0.0393701)\n        return Length(\"%scm\" % (Length.str(v)))"))
 M("sub-in-place-alias", ["C12"], "a - b mutates b through the negation", ("    def __isub__(self, other):\n        if isinstance(other, (str, float, int)):\n            other = Length(other)\n        self += -other\n        return self", "    def __isub__(self, other):\n        if isinstance(other, (str, float, int)):\n            other = Length(other)\n        other.amount = -other.amount\n        self += other\n        return self"))
+
+# ---- colours (C13) ---------------------------------------------------------------------------------------
+M("keyword-typo-tomato", ["C13"], "tomato has a wrong green channel", ("            return Color.rgb_to_int(255, 99, 71)", "            return Color.rgb_to_int(255, 69, 71)"))
+M("hex4-alpha-first", ["C13"], "#rgba read as #argb", ("            s = h[0] + h[0] + h[1] + h[1] + h[2] + h[2] + h[3] + h[3]\n            return int(s, 16)", "            s = h[1] + h[1] + h[2] + h[2] + h[3] + h[3] + h[0] + h[0]\n            return int(s, 16)"))
+M("crimp-254", ["C13"], "clamp limit 254", ("        if v > 255:\n            return 255\n        if v < 0:\n            return 0\n        return int(v)", "        if v > 254:\n            return 254\n        if v < 0:\n            return 0\n        return int(v)"))
+M("rgb-percent-ratio", ["C13"], "percent ratio 256/100", ("        ratio = 255.0 / 100.0", "        ratio = 256.0 / 100.0"))
+M("green-setter-mask", ["C13"], "green setter clears blue as well", ("        self.value &= ~0xFF0000\n        self.value |= g << 16", "        self.value &= ~0xFFFF00\n        self.value |= g << 16"))
+M("argb-setter-shift", ["C13"], "argb setter drops the alpha byte", ("        self.value = ((argb << 8) & 0xFFFFFF00) | (argb >> 24 & 0xFF)", "        self.value = ((argb << 8) & 0xFFFFFF00) | 0xFF"))
+M("hex-drops-alpha-ff-only-for-opaque", ["C13"], "hex omits alpha when it is 0 as well", ("        if self.alpha == 0xFF:\n            return self.hexrgb", "        if self.alpha == 0xFF or self.alpha == 0:\n            return self.hexrgb"))
+M("hsl-lightness-branch", ["C13"], "hsl conversion uses the wrong branch at l = 0.5", ("            if l < 0.5:\n                v2 = l * (1.0 + s)", "            if l <= 0.6:\n                v2 = l * (1.0 + s)"))
+M("saturation-getter-denominator", ["C13"], "saturation getter uses the wrong denominator for light colours", ("            return delta / (2.0 - max_v - min_v)", "            return delta / (2.0 - max_v)"))
+M("bgr-getter-swapped", ["C13"], "bgr getter returns rgb order", ("        return self.blue << 16 | self.green << 8 | self.red", "        return self.red << 16 | self.green << 8 | self.blue"))
+M("keyword-case-sensitive", ["C13"], "keywords only recognised in lower case", ('            v = v.replace(" ", "").lower()', '            v = v.replace(" ", "")'))
